@@ -4,6 +4,7 @@ package revision
 
 import (
 	"context"
+	"math/big"
 	"encoding/json"
 	"errors"
 	"fmt"
@@ -46,6 +47,122 @@ func (c stubChain) AddV2PoolTransactions(types.ChainIndex, []types.V2Transaction
 	return false, nil
 }
 func (c stubChain) RecommendedFee() types.Currency { return types.ZeroCurrency }
+
+// liveChain is a chain manager whose tip the harness moves while an RPC is in flight.
+type liveChain struct {
+	mu    sync.Mutex
+	h, rh uint64
+}
+
+func (c *liveChain) height() uint64 {
+	c.mu.Lock()
+	defer c.mu.Unlock()
+	return c.h
+}
+func (c *liveChain) advance(n uint64) {
+	c.mu.Lock()
+	c.h += n
+	c.mu.Unlock()
+}
+func (c *liveChain) Tip() types.ChainIndex { return types.ChainIndex{Height: c.height()} }
+func (c *liveChain) TipState() consensus.State {
+	return stubChain{c.height(), c.rh}.TipState()
+}
+func (c *liveChain) UnconfirmedParents(types.Transaction) []types.Transaction { return nil }
+func (c *liveChain) AddPoolTransactions([]types.Transaction) (bool, error)    { return false, nil }
+func (c *liveChain) AddV2PoolTransactions(types.ChainIndex, []types.V2Transaction) (bool, error) {
+	return false, nil
+}
+func (c *liveChain) RecommendedFee() types.Currency { return types.ZeroCurrency }
+
+// liveSettings is a settings reporter whose settings the harness changes while an
+// RPC is in flight; it counts the reads so that the harness knows when the handler
+// has taken its snapshot.  The price table's height is the tip when it is issued.
+type liveSettings struct {
+	mu    sync.Mutex
+	s     st
+	chain *liveChain
+	reads int
+}
+
+func (l *liveSettings) AcceptingContracts() bool { return true }
+func (l *liveSettings) RHP2Settings() (rhp2.HostSettings, error) {
+	l.mu.Lock()
+	defer l.mu.Unlock()
+	l.reads++
+	return l.s.rhp2Settings(), nil
+}
+func (l *liveSettings) RHP3PriceTable() (rhp3.HostPriceTable, error) {
+	l.mu.Lock()
+	defer l.mu.Unlock()
+	l.reads++
+	pt := l.s.rhp3PriceTable(l.chain.height())
+	pt.Validity = time.Minute
+	return pt, nil
+}
+func (l *liveSettings) readCount() int {
+	l.mu.Lock()
+	defer l.mu.Unlock()
+	return l.reads
+}
+
+// change replaces the settings by different ones (a host operator's update).
+func (l *liveSettings) change() {
+	l.mu.Lock()
+	defer l.mu.Unlock()
+	l.s.WS += 7
+	l.s.CP = cur(add(bigOf(l.s.CP), bi(1000)))
+	l.s.MC = cur(new(big.Int).Rsh(bigOf(l.s.MC), 1))
+	l.s.SP = cur(add(bigOf(l.s.SP), bi(1)))
+	l.s.B = cur(add(bigOf(l.s.B), bi(5)))
+}
+
+// dyn says what happens while the RPC is in flight: dh1 blocks connect (and, sc = 1,
+// the settings are changed) between the arrival of the RPC id and the arrival of the
+// request body; dh2 blocks connect between the host's answer and the renter's signatures.
+type dyn struct {
+	dh1, dh2 uint64
+	sc       int
+}
+
+func (d dyn) enc() string { return fmt.Sprintf("dh1=%d dh2=%d sc=%d", d.dh1, d.dh2, d.sc) }
+
+// flight is the renter's handle on the in-flight changes.
+type flight struct {
+	d     dyn
+	chain *liveChain
+	set   *liveSettings
+	gate  *halfPipe // renter -> host direction
+}
+
+// sendRequest writes the RPC id and the request; if something is to change in between, the request body is
+// held back until the handler has taken its snapshots (settings read), the change is made, then it is delivered.
+func (f *flight) sendRequest(t *rhp2.Transport, id types.Specifier, req rhp2.ProtocolObject) error {
+	if f.d.dh1 == 0 && f.d.sc == 0 {
+		return t.WriteRequest(id, req)
+	}
+	reads := f.set.readCount()
+	f.gate.arm(1) // deliver the id, hold what follows
+	if err := t.WriteRequest(id, req); err != nil {
+		f.gate.release()
+		return err
+	}
+	for deadline := time.Now().Add(5 * time.Second); f.set.readCount() == reads && time.Now().Before(deadline); {
+		time.Sleep(20 * time.Microsecond)
+	}
+	f.hookA()
+	f.gate.release()
+	return nil
+}
+
+func (f *flight) hookA() {
+	f.chain.advance(f.d.dh1)
+	if f.d.sc == 1 {
+		f.set.change()
+	}
+}
+
+func (f *flight) hookB() { f.chain.advance(f.d.dh2) }
 
 type stubSyncer struct{}
 
@@ -151,6 +268,25 @@ type halfPipe struct {
 	closed   bool
 	deadline time.Time
 	timer    *time.Timer
+	// delivery gate: after `pass` more writes the following ones are held back until release
+	gated bool
+	pass  int
+	held  []byte
+}
+
+func (h *halfPipe) arm(pass int) {
+	h.mu.Lock()
+	h.gated, h.pass = true, pass
+	h.mu.Unlock()
+}
+
+func (h *halfPipe) release() {
+	h.mu.Lock()
+	h.gated = false
+	h.buf = append(h.buf, h.held...)
+	h.held = nil
+	h.cond.Broadcast()
+	h.mu.Unlock()
 }
 
 func newHalfPipe() *halfPipe {
@@ -183,6 +319,13 @@ func (h *halfPipe) write(p []byte) (int, error) {
 	defer h.mu.Unlock()
 	if h.closed {
 		return 0, io.ErrClosedPipe
+	}
+	if h.gated {
+		if h.pass == 0 {
+			h.held = append(h.held, p...)
+			return len(p), nil
+		}
+		h.pass--
 	}
 	h.buf = append(h.buf, p...)
 	h.cond.Broadcast()
@@ -246,9 +389,11 @@ func pipe() (net.Conn, net.Conn) {
 
 // ---- RHP2 -------------------------------------------------------------------
 
-func serveRHP2(s st, h, rh uint64, locked contracts.SignedRevision, renter func(t *rhp2.Transport) error) (string, recorded, error) {
+func serveRHP2(s st, h, rh uint64, locked contracts.SignedRevision, d dyn, renter func(t *rhp2.Transport, f *flight) error) (string, recorded, error) {
 	cs := &stubContracts{existing: locked}
-	sh := rhp2host.NewSessionHandler(nil, hostKey, stubChain{h, rh}, stubSyncer{}, stubWallet{addrOf(s.Addr)}, cs, stubSettings{s, h}, nil, zap.NewNop())
+	chain := &liveChain{h: h, rh: rh}
+	set := &liveSettings{s: s, chain: chain}
+	sh := rhp2host.NewSessionHandler(nil, hostKey, chain, stubSyncer{}, stubWallet{addrOf(s.Addr)}, cs, set, nil, zap.NewNop())
 	hc, rc := pipe()
 	var wg sync.WaitGroup
 	var panicked bool
@@ -267,7 +412,7 @@ func serveRHP2(s st, h, rh uint64, locked contracts.SignedRevision, renter func(
 			rerr = err
 			return
 		}
-		rerr = renter(t)
+		rerr = renter(t, &flight{d: d, chain: chain, set: set, gate: rc.(*memConn).w})
 	}()
 	wg.Wait()
 	cs.mu.Lock()
@@ -277,18 +422,19 @@ func serveRHP2(s st, h, rh uint64, locked contracts.SignedRevision, renter func(
 	return res, rec, err
 }
 
-func doRPCForm2(tr *vhlib.Trace, f rv, rk int, h, rh uint64, s st, bs int) {
+func doRPCForm2(tr *vhlib.Trace, f rv, rk int, h, rh uint64, s st, bs int, d dyn) {
 	renterKey := renterKeys[rk]
-	res, rec, err := serveRHP2(s, h, rh, contracts.SignedRevision{}, func(t *rhp2.Transport) error {
+	res, rec, err := serveRHP2(s, h, rh, contracts.SignedRevision{}, d, func(t *rhp2.Transport, fl *flight) error {
 		txn := types.Transaction{FileContracts: []types.FileContract{f.contract()}}
 		req := &rhp2.RPCFormContractRequest{Transactions: []types.Transaction{txn}, RenterKey: renterKey.PublicKey().UnlockKey()}
-		if err := t.WriteRequest(rhp2.RPCFormContractID, req); err != nil {
+		if err := fl.sendRequest(t, rhp2.RPCFormContractID, req); err != nil {
 			return err
 		}
 		var resp rhp2.RPCFormContractAdditions
 		if err := t.ReadResponse(&resp, 65536); err != nil {
 			return err
 		}
+		fl.hookB()
 		txn.SiacoinInputs = append(txn.SiacoinInputs, resp.Inputs...)
 		txn.SiacoinOutputs = append(txn.SiacoinOutputs, resp.Outputs...)
 		init := rhp.InitialRevision(txn, hostKey.PublicKey().UnlockKey(), renterKey.PublicKey().UnlockKey())
@@ -305,7 +451,7 @@ func doRPCForm2(tr *vhlib.Trace, f rv, rk int, h, rh uint64, s st, bs int) {
 	if res == "accept" {
 		extra = rec.obs()
 	}
-	emit(tr, "rpcform2", fmt.Sprintf("%s rk=%d h=%d rh=%d bs=%d %s", f.enc("f"), rk, h, rh, bs, s.enc()), res, extra, err)
+	emit(tr, "rpcform2", fmt.Sprintf("%s rk=%d h=%d rh=%d bs=%d %s %s", f.enc("f"), rk, h, rh, bs, d.enc(), s.enc()), res, extra, err)
 }
 
 // signMaybe signs h, or (bad) something else: the renter's signature then does not verify.
@@ -324,21 +470,22 @@ func renterKeyOf(uc int) types.PrivateKey {
 	return renterKeys[0]
 }
 
-func doRPCRenew2(tr *vhlib.Trace, e, f rv, fv []types.Currency, rk int, h, rh uint64, s st, bs int) {
+func doRPCRenew2(tr *vhlib.Trace, e, f rv, fv []types.Currency, rk int, h, rh uint64, s st, bs int, d dyn) {
 	renterKey := renterKeys[rk]
 	existing := e.revision()
 	locked := contracts.SignedRevision{Revision: existing}
-	res, rec, err := serveRHP2(s, h, rh, locked, func(t *rhp2.Transport) error {
+	res, rec, err := serveRHP2(s, h, rh, locked, d, func(t *rhp2.Transport, fl *flight) error {
 		txn := types.Transaction{FileContracts: []types.FileContract{f.contract()}}
 		req := &rhp2.RPCRenewAndClearContractRequest{Transactions: []types.Transaction{txn}, RenterKey: renterKey.PublicKey().UnlockKey(),
 			FinalValidProofValues: fv, FinalMissedProofValues: fv}
-		if err := t.WriteRequest(rhp2.RPCRenewClearContractID, req); err != nil {
+		if err := fl.sendRequest(t, rhp2.RPCRenewClearContractID, req); err != nil {
 			return err
 		}
 		var resp rhp2.RPCFormContractAdditions
 		if err := t.ReadResponse(&resp, 65536); err != nil {
 			return err
 		}
+		fl.hookB()
 		txn.SiacoinInputs = append(txn.SiacoinInputs, resp.Inputs...)
 		txn.SiacoinOutputs = append(txn.SiacoinOutputs, resp.Outputs...)
 		clearing, err := rhp.ClearingRevision(existing, fv)
@@ -362,16 +509,19 @@ func doRPCRenew2(tr *vhlib.Trace, e, f rv, fv []types.Currency, rk int, h, rh ui
 	if res == "accept" {
 		extra = rec.obs()
 	}
-	emit(tr, "rpcrenew2", fmt.Sprintf("%s %s fv=%s rk=%d h=%d rh=%d bs=%d %s", e.enc("e"), f.enc("f"), fmtCurs(fv), rk, h, rh, bs, s.enc()), res, extra, err)
+	emit(tr, "rpcrenew2", fmt.Sprintf("%s %s fv=%s rk=%d h=%d rh=%d bs=%d %s %s", e.enc("e"), f.enc("f"), fmtCurs(fv), rk, h, rh, bs, d.enc(), s.enc()), res, extra, err)
 }
 
 // ---- RHP3 -------------------------------------------------------------------
 
-func doRPCRenew3(tr *vhlib.Trace, e, k, f rv, rk int, h, rh uint64, s st, bs int) {
+func doRPCRenew3(tr *vhlib.Trace, e, k, f rv, rk int, h, rh uint64, s st, bs int, d dyn) {
 	renterKey := renterKeys[rk]
 	existing := contracts.SignedRevision{Revision: e.revision()}
 	cs := &stubContracts{existing: existing}
-	sh := rhp3host.NewSessionHandler(nil, hostKey, stubChain{h, rh}, stubSyncer{}, stubWallet{addrOf(s.Addr)}, nil, cs, nil, nil, stubSettings{s, h}, zap.NewNop())
+	chain := &liveChain{h: h, rh: rh}
+	set := &liveSettings{s: s, chain: chain}
+	fl := &flight{d: d, chain: chain, set: set}
+	sh := rhp3host.NewSessionHandler(nil, hostKey, chain, stubSyncer{}, stubWallet{addrOf(s.Addr)}, nil, cs, nil, nil, set, zap.NewNop())
 	hc, rc := pipe()
 	var wg sync.WaitGroup
 	var panicked bool
@@ -404,6 +554,7 @@ func doRPCRenew3(tr *vhlib.Trace, e, k, f rv, rk int, h, rh uint64, s st, bs int
 		if err := json.Unmarshal(ptResp.PriceTableJSON, &pt); err != nil {
 			return err
 		}
+		fl.hookA() // the price table has been issued: the tip moves on / the settings change
 		clearing, renewal := k.revision(), f.contract()
 		clearing.ParentID = existing.Revision.ParentID
 		txn := types.Transaction{FileContractRevisions: []types.FileContractRevision{clearing}, FileContracts: []types.FileContract{renewal}}
@@ -417,6 +568,7 @@ func doRPCRenew3(tr *vhlib.Trace, e, k, f rv, rk int, h, rh uint64, s st, bs int
 		if err := stream.ReadResponse(&additions, 1<<16); err != nil {
 			return err
 		}
+		fl.hookB()
 		txn.SiacoinInputs = append(txn.SiacoinInputs, additions.SiacoinInputs...)
 		txn.SiacoinOutputs = append(txn.SiacoinOutputs, additions.SiacoinOutputs...)
 		init := rhp.InitialRevision(txn, hostKey.PublicKey().UnlockKey(), renterKey.PublicKey().UnlockKey())
@@ -438,5 +590,5 @@ func doRPCRenew3(tr *vhlib.Trace, e, k, f rv, rk int, h, rh uint64, s st, bs int
 	if res == "accept" {
 		extra = rec.obs()
 	}
-	emit(tr, "rpcrenew3", fmt.Sprintf("%s %s %s rk=%d h=%d rh=%d bs=%d %s", e.enc("e"), k.enc("k"), f.enc("f"), rk, h, rh, bs, s.enc()), res, extra, err)
+	emit(tr, "rpcrenew3", fmt.Sprintf("%s %s %s rk=%d h=%d rh=%d bs=%d %s %s", e.enc("e"), k.enc("k"), f.enc("f"), rk, h, rh, bs, d.enc(), s.enc()), res, extra, err)
 }
